@@ -295,6 +295,44 @@ def st_method():
     return st.PermutationMethod(n_resamples=99, random_state=7)
 
 
+def layout_cases(out: Outcome, rng) -> None:
+    """each result depends only on (reference, test sample, parameters) - on the VALUES of the samples, not on how the arrays lie in memory: strided views, read-only
+    arrays, Fortran order / column slices (multivariate detectors) give what a fresh contiguous copy gives"""
+    for cls in UNIV + MULTI:
+        if cls is ChiSquareTest or cls.__name__ == "BWSTest":      # (BWS above 9 999 arrangements is a random resampling estimate: two calls differ by design, C12's carve-out)
+            continue
+        multi = cls in MULTI
+        n, m = rng.randint(6, 12), rng.randint(6, 12)
+        A = np.array([[rng.gauss(0, 1) for _ in range(2)] for _ in range(2 * n)]) if multi else np.array([rng.gauss(0, 1) for _ in range(2 * n)])
+        B = np.array([[rng.gauss(0.4, 1) for _ in range(2)] for _ in range(2 * m)]) if multi else np.array([rng.gauss(0.4, 1) for _ in range(2 * m)])
+        views = {"strided": (A[::2], B[::2]), "reversed twice": (A[::-1][1::2][::-1], B[::-1][1::2][::-1])}
+        ro_a, ro_b = A[::2].copy(), B[::2].copy()
+        ro_a.setflags(write=False); ro_b.setflags(write=False)
+        views["read-only"] = (ro_a, ro_b)
+        if multi:
+            views["fortran"] = (np.asfortranarray(A[::2]), np.asfortranarray(B[::2]))
+            wide_a, wide_b = np.concatenate([A[::2], A[::2]], axis=1), np.concatenate([B[::2], B[::2]], axis=1)
+            views["column slice"] = (wide_a[:, :2], wide_b[:, :2])
+        for name, (xa, xb) in views.items():
+            rep = {"detector": cls.__name__, "layout": name, "ref": np.asarray(xa).tolist(), "test": np.asarray(xb).tolist()}
+            try:
+                d0 = cls()
+                d0.fit(X=np.ascontiguousarray(xa).copy())
+                want = res_key(d0.compare(X=np.ascontiguousarray(xb).copy())[0])
+            except Exception:  # noqa: BLE001
+                continue
+            try:
+                d1 = cls()
+                d1.fit(X=xa)
+                got = res_key(d1.compare(X=xb)[0])
+            except Exception as e:  # noqa: BLE001
+                out.violation(f"{cls.__name__}: fit/compare on {name} arrays raised {type(e).__name__}: {e} (contiguous copies of the same values are accepted)", rep)
+                continue
+            if got != want:
+                out.violation(f"{cls.__name__}: the result on {name} arrays differs from the result on contiguous copies of the same values", rep)
+        out.case({"detector": cls.__name__, "layouts": sorted(views)})
+
+
 def run(out: Outcome) -> None:
     rng = rng_for(out.seed, "C14")
     thorough = out.tier == "thorough"
@@ -307,6 +345,7 @@ def run(out: Outcome) -> None:
         history(out, rng, cls, lines, expect, well_formed=True)
     dimension_table(out, rng)
     column_vector_cases(out, rng)
+    layout_cases(out, rng)
     streaming(out, rng)
     got = run_driver(lines)
     for g, e in zip(got, expect):
